@@ -37,7 +37,7 @@ Qed.
 
 Definition mk_diag (tr : range -> lsp_range) (cfg : config) (e : emit) : diag :=
   {| d_code := e_code e; d_name := code_name (e_code e); d_range := tr (e_range e);
-     d_severity := get_severity cfg (e_code e); d_msg := e_msg e |}.
+     d_severity := get_severity cfg (e_code e); d_msg := e_msg e; d_data := e_data e |}.
 
 Lemma add_diagnostic_some : forall tr cfg f e d,
   add_diagnostic tr cfg f e = Some d <->
@@ -74,11 +74,44 @@ Proof.
     apply add_diagnostic_some. repeat (split; [assumption|]). assumption.
 Qed.
 
+(** ---- get_diagnostics ---- *)
+
+Lemma in_dedup_acc : forall l kept d, In d (dedup_acc kept l) <-> In d l /\ ~ In d kept.
+Proof.
+  induction l as [|x r IH]; intros kept d; cbn [dedup_acc].
+  - split; [intros []|intros [[] _]].
+  - destruct (in_dec diag_eq_dec x kept) as [Hx|Hx].
+    + rewrite IH. cbn [In]. split.
+      * intros [H1 H2]. split; [right; exact H1|exact H2].
+      * intros [[Heq|H1] H2]; [subst; contradiction|split; assumption].
+    + cbn [In]. rewrite IH. cbn [In]. split.
+      * intros [Heq|[H1 H2]].
+        -- subst. split; [left; reflexivity|exact Hx].
+        -- split; [right; exact H1|]. intros H. apply H2. right. exact H.
+      * intros [[Heq|H1] H2].
+        -- left. exact Heq.
+        -- destruct (diag_eq_dec x d) as [E|E]; [left; exact E|].
+           right. split; [exact H1|]. intros [H|H]; [contradiction|contradiction].
+Qed.
+
+Lemma nodup_dedup_acc : forall l kept, NoDup (dedup_acc kept l).
+Proof.
+  induction l as [|x r IH]; intros kept; cbn [dedup_acc]; [constructor|].
+  destruct (in_dec diag_eq_dec x kept); [apply IH|].
+  constructor; [|apply IH]. intros H. apply in_dedup_acc in H. destruct H as [_ H]. apply H. left. reflexivity.
+Qed.
+
+Lemma in_get_diagnostics : forall l d, In d (get_diagnostics l) <-> In d l.
+Proof.
+  intros l d. unfold get_diagnostics. destruct dedup_diagnostics; [|reflexivity].
+  rewrite in_dedup_acc. split; [intros [H _]; exact H|intros H; split; [exact H|intros []]].
+Qed.
+
 Lemma diagnose_file_some : forall tr cfg f ks ds,
   diagnose_file tr cfg f ks = Some ds ->
   cfg_enable cfg = true /\
   (f_workspace f = None \/ f_workspace f = Some main_workspace_id) /\
-  ds = check_file tr cfg f ks.
+  ds = get_diagnostics (check_file tr cfg f ks).
 Proof.
   intros tr cfg f ks ds. unfold diagnose_file.
   destruct (cfg_enable cfg); cbn [negb]; [|discriminate].
@@ -88,11 +121,18 @@ Proof.
   - intros H. injection H as H. split; [reflexivity|]. split; [left; reflexivity|]. symmetry; exact H.
 Qed.
 
+(** membership in the result of [diagnose_file] is membership in the vector built by [check_file] *)
+Lemma in_diagnose_file : forall tr cfg f ks ds d,
+  diagnose_file tr cfg f ks = Some ds -> (In d ds <-> In d (check_file tr cfg f ks)).
+Proof.
+  intros tr cfg f ks ds d H. apply diagnose_file_some in H. destruct H as [_ [_ ->]]. apply in_get_diagnostics.
+Qed.
+
 Lemma reported_enabled : forall tr cfg f ks ds d,
   diagnose_file tr cfg f ks = Some ds -> In d ds ->
   is_checker_enable_by_code cfg f (d_code d) = true.
 Proof.
-  intros tr cfg f ks ds d H Hin. apply diagnose_file_some in H. destruct H as [_ [_ ->]].
+  intros tr cfg f ks ds d H Hin. apply (in_diagnose_file _ _ _ _ _ d H) in Hin.
   apply in_check_file in Hin. destruct Hin as [k [e [_ [_ [_ [H1 [_ ->]]]]]]]. exact H1.
 Qed.
 
@@ -144,10 +184,11 @@ Lemma enables_reported : forall tr cfg f ks k e,
   exists ds, diagnose_file tr cfg f ks = Some ds /\ In (mk_diag tr cfg e) ds.
 Proof.
   intros tr cfg f ks k e Hk He Hc Hen Hws Hmeta Hwe Hwd Hfd Hsup.
-  exists (check_file tr cfg f ks). split.
+  exists (get_diagnostics (check_file tr cfg f ks)). split.
   - unfold diagnose_file. rewrite Hen. cbn [negb].
     destruct Hws as [-> | ->]; [reflexivity|]. rewrite N.eqb_refl. reflexivity.
-  - assert (Hon : is_checker_enable_by_code cfg f (e_code e) = true).
+  - apply in_get_diagnostics.
+    assert (Hon : is_checker_enable_by_code cfg f (e_code e) = true).
     { apply enables_turn_on; [exact Hmeta| |apply not_mem_false; exact Hwd|apply not_mem_false; exact Hfd].
       apply mem_true_iff. exact Hwe. }
     apply in_check_file. exists k, e.
@@ -177,7 +218,7 @@ Lemma severity_override : forall tr cfg f ks ds d,
                  | None => Some (default_severity (d_code d))
                  end.
 Proof.
-  intros tr cfg f ks ds d H Hin. apply diagnose_file_some in H. destruct H as [_ [_ ->]].
+  intros tr cfg f ks ds d H Hin. apply (in_diagnose_file _ _ _ _ _ d H) in Hin.
   apply in_check_file in Hin. destruct Hin as [k [e [_ [_ [_ [_ [_ ->]]]]]]].
   unfold mk_diag, get_severity. cbn [d_severity d_code]. reflexivity.
 Qed.
@@ -220,7 +261,7 @@ Qed.
 Lemma check_name_expr_some : forall cfg o e,
   check_name_expr cfg o = Some e ->
   globals_match cfg (o_name o) = false /\
-  e = {| e_code := C_UndefinedGlobal; e_range := o_range o; e_msg := ug_prefix ++ o_name o |}.
+  e = {| e_code := C_UndefinedGlobal; e_range := o_range o; e_msg := ug_prefix ++ o_name o; e_data := None |}.
 Proof.
   intros cfg o e. unfold check_name_expr, globals_match.
   destruct (o_is_ref o); [discriminate|].
@@ -242,7 +283,7 @@ Lemma globals_never_undefined : forall tr cfg f occs others ds d,
             globals_match cfg (o_name o) = false.
 Proof.
   intros tr cfg f occs others ds d Hoth H Hin Hcode.
-  apply diagnose_file_some in H. destruct H as [_ [_ ->]].
+  apply (in_diagnose_file _ _ _ _ _ d H) in Hin.
   apply in_check_file in Hin. destruct Hin as [k [e [Hk [He [_ [_ [_ Hd]]]]]]].
   destruct Hk as [<-|Hk].
   - cbn [undefined_global_checker k_body] in He. apply in_filter_map in He.
@@ -294,6 +335,14 @@ Qed.
 Lemma enable_false_silent : forall tr cfg f ks, cfg_enable cfg = false -> diagnose_file tr cfg f ks = None.
 Proof. intros tr cfg f ks H. unfold diagnose_file. rewrite H. reflexivity. Qed.
 
+(** the reported list never contains the same diagnostic twice, whatever the checkers emit *)
+Lemma no_exact_duplicates : forall tr cfg f ks ds, diagnose_file tr cfg f ks = Some ds -> NoDup ds.
+Proof.
+  intros tr cfg f ks ds H. apply diagnose_file_some in H. destruct H as [_ [_ ->]].
+  unfold get_diagnostics.
+  assert (Hd : dedup_diagnostics = true) by reflexivity. rewrite Hd. apply nodup_dedup_acc.
+Qed.
+
 (** the whole chain in one formula (for the order of today's source) *)
 Lemma chain_formula : forall cfg f c,
   is_checker_enable_by_code cfg f c =
@@ -326,8 +375,9 @@ Definition ex_checkers : list checker :=
         {| o_name := [103; 49]; o_range := (4, 6); o_is_ref := false; o_global_decl := false; o_self_ok := false |};
         {| o_name := [120]; o_range := (7, 8); o_is_ref := false; o_global_decl := false; o_self_ok := false |} ];
     {| k_codes := [C_UndefinedDocParam; C_UnknownDocTag];
-       k_body := fun _ => [ {| e_code := C_UnknownDocTag; e_range := (9, 12); e_msg := [63] |} ] |};
-    {| k_codes := [C_Unused]; k_body := fun _ => [ {| e_code := C_Unused; e_range := (13, 14); e_msg := [] |} ] |} ].
+       k_body := fun _ => [ {| e_code := C_UnknownDocTag; e_range := (9, 12); e_msg := [63]; e_data := None |};
+                            {| e_code := C_UnknownDocTag; e_range := (9, 12); e_msg := [63]; e_data := None |} ] |};
+    {| k_codes := [C_Unused]; k_body := fun _ => [ {| e_code := C_Unused; e_range := (13, 14); e_msg := []; e_data := None |} ] |} ].
 
 Lemma config_example :
   option_map (map (fun d => (d_code d, d_range d, d_severity d))) (diagnose_file ex_tr ex_cfg ex_file ex_checkers)
